@@ -622,6 +622,8 @@ def _main_replay(mod, path):
     case = json.load(open(path))
     case.pop('violation', None)
     if hasattr(mod, 'prepare'):
+        if hasattr(mod, 'prepare_replay_case'):
+            mod.prepare_replay_case(case)
         mod.prepare(dict(mod.TIERS['quick']), replay=True)
     stats = Stats()
     vs = exec_case(mod, case, stats)
